@@ -43,6 +43,7 @@ mod proofs {
     instantiate_aad!(V = V, TAG = 32);
     instantiate_paserk!(V = V, PIE_OVER = 64, SECRET_LEN = 64, PW_PREFIX = 56, PW_OVER = 88, PW_PARAMS_OFF = 16, PW_PARAMS_LEN = 16, ARM = arm, DRAWS = draws);
     instantiate_pke!(V = V, PKE_LEN = 96, RCPT = rcpt(), ARM = arm, DRAWS = draws);
+    instantiate_keys!(V = V, PUB_LEN = 32, SEC_LEN = 64, PUB_IN_SECRET = Some(32), PUB_LENS = &[32], ID_DOM = vmodel::D_BLAKE2, ID_PREFIX = &[33, 0], PASERK = b"k4");
 
     h!(local_nonce_is_draw_, local_nonce_is_draw::<V>(32, last_draw));
 }
